@@ -16,19 +16,20 @@ Proved here (full strength, no hypothesis on the content of the row):
   `[0, 2)`). Such a row is not produced by the writers (`rawWriteRune` styles the whole character).
 
 * `grid_styledLine_subCells_partial` — statement 1 for rows WITHOUT wide characters (any styles,
-  repeat and text runs, `some w` and `none` forms).
-* `stream_contSty` — towards 3: after every byte stream every row of the active screen of the
-  array-level terminal satisfies `ContSty` (from `C11M.InnerOK'` through `stream_rows`).
-
-NOT proved (time): statement 1 in general,
-  `RowOK r → r.all okCh → ContSty r → x + w ≤ r.length →
-     ((r.styledLine x (some w)).1).flatMap GSpanC.cells = subCells (r.map GCell.abs) x (x + w)`
-and its corollary 3 (`stream_grid_styledLine`; it needs `ContSty` for reachable rows, from
-`C11M.InnerOK'` / `RowOK.contSty` of the model rows through `stream_rows`). It is checked by
-`decide` on every window of `exRow` (`allWindows`), which has wide characters cut on the left, on
-the right, on both sides, and two styles; no counterexample was found among rows with `ContSty`.
-The helper equations `gStretch_lead` / `gStretch_nolead` / `core` / `mainOf` are the intended
-starting point for it.
+  repeat and text runs, `some w` and `none` forms); kept, it is now a special case.
+* `stream_contSty` — after every byte stream every row of the active screen of the array-level
+  terminal satisfies `ContSty` (from `C11M.InnerOK'` through `stream_rows`).
+* `grid_styledLine_subCells` — statement 1 IN GENERAL: `RowOK r`, `r.all okCh`, `ContSty r`,
+  `x ≤ r.length`: for every `w` with `x + w ≤ r.length` the runs of `r.styledLine x (some w)` expanded
+  to cells are `subCells (r.map GCell.abs) x (x + w)` and the reported width is `w`; and the `none`
+  (to the end) form. Wide characters of any width, cut on either side or both, any styles.
+  Route: index-level facts from `rowWF` (`wf_at`, `nocut`, `cut`), the three pointwise reads of
+  `cutCell` (`cut_inside`, `cut_lead`, `cut_tail`), (b) `whole_chars` (a body between two character
+  boundaries: the characters of its head cells expand to its cells), `main_cells`, `core_cells`
+  (body + trailing blanks), `stretch_cells` (leading blanks + core), (c) in `aux_cells` (with
+  `ContSty` a stretch that ends before the right edge ends at a character boundary).
+* `stream_grid_styledLine` — statement 3: for every byte stream, `StyledLine(x, n, y)` of the
+  array-level terminal's active screen is `subCells` of the model terminal's row, every window.
 -/
 namespace TM.C20GridStyled
 open TM
@@ -391,18 +392,14 @@ theorem subCells_narrow (r : GRow) (x e : Nat) (he : e ≤ r.length) (hN : ∀ c
   · rw [List.getElem?_eq_none (by rw [C11M.subCells_length]; omega),
       List.getElem?_eq_none (by simp only [List.length_map, List.length_take, List.length_drop]; omega)]
 
-/- the full statement 1 (NOT proved; needs `ContSty`, see `contSty_needed`):
-   theorem grid_styledLine_subCells (r : GRow) (hr : C20Grid.RowOK r) (hch : r.all GCell.okCh = true)
-       (hcs : ContSty r) {x w : Nat} (hxw : x + w ≤ r.length) :
-       ((r.styledLine x (some w)).1).flatMap GSpanC.cells = subCells (r.map GCell.abs) x (x + w) ∧
-       (r.styledLine x (some w)).2 = w -/
+/- the full statement 1 is `grid_styledLine_subCells` below (it needs `ContSty`, see `contSty_needed`). -/
 
 /-- **1, partial**: for a row WITHOUT wide characters (no continuation cell, every width 1) of
     consistent cells (`ok`, `okCh`), any number of styles: the runs `StyledLine(x, w, y)` returns
     (repeat runs and text runs), expanded to cells, are the mirror model's read `subCells` of
-    `[x, x + w)`, and the reported width is `w`; also the to-the-end form. Missing: rows with wide
-    characters (the leading / trailing blank runs of a cut character, text runs with continuation
-    cells). -/
+    `[x, x + w)`, and the reported width is `w`; also the to-the-end form. Rows with wide
+    characters: `grid_styledLine_subCells` (which needs `ContSty`; this one does not, there are no
+    continuation cells). -/
 theorem grid_styledLine_subCells_partial (r : GRow) (hok : r.all GCell.ok = true) (hch : r.all GCell.okCh = true)
     (hnw : ∀ c ∈ r, c.cont = false ∧ c.width = 1) {x : Nat} (hx : x ≤ r.length) :
     (∀ w, x + w ≤ r.length →
@@ -511,6 +508,635 @@ theorem stream_contSty (cw : Nat → Nat) (hsp : cw 32 ≤ 1) (hrep : cw 0xFFFD 
     rw [show T.alt.row y = _ from a2] at this
     exact contSty_of_abs this
 
+/-! ## statement 1 in general: rows with wide characters -/
+
+theorem contAt_abs (r : GRow) (j : Nat) : contAt (r.map GCell.abs) j = r.contAt j := by
+  unfold contAt GRow.contAt
+  rw [List.getElem?_map]
+  cases h : r[j]? with
+  | none => rfl
+  | some c =>
+    simp only [Option.map_some]
+    unfold GCell.abs
+    cases hc : c.cont <;> simp
+
+theorem contAt_of_len {r : GRow} {j : Nat} (h : r.length ≤ j) : r.contAt j = false := by
+  unfold GRow.contAt; rw [List.getElem?_eq_none h]
+
+theorem contAt_get {r : GRow} {j : Nat} (h : j < r.length) : r.contAt j = (r[j]).cont := by
+  unfold GRow.contAt; rw [List.getElem?_eq_getElem h]
+
+theorem abs_get {r : GRow} {j : Nat} (h : j < r.length) :
+    (r.map GCell.abs)[j]'(by rw [List.length_map]; exact h) = (r[j]).abs := by
+  rw [List.getElem_map]
+
+/-- what `rowWF` says at the head of a character -/
+theorem wf_at {r : GRow} (hr : C20Grid.RowOK r) {p : Nat} (hp : p < r.length) (hc : r.contAt p = false) :
+    1 ≤ (r[p]).width ∧ widthAt (r.map GCell.abs) p = (r[p]).width ∧ p + (r[p]).width ≤ r.length ∧
+    (∀ k, p < k → k < p + (r[p]).width → r.contAt k = true) ∧ r.contAt (p + (r[p]).width) = false := by
+  have hwf := hr.2
+  unfold rowWF at hwf
+  have h1 := List.all_eq_true.1 hwf p (List.mem_range.2 (by rw [List.length_map]; exact hp))
+  have hcf : (r[p]).cont = false := by rw [← contAt_get hp]; exact hc
+  have hg : (r.map GCell.abs)[p]? = some ⟨.ch (r[p]).text (r[p]).width, (r[p]).sty⟩ := by
+    rw [List.getElem?_map, List.getElem?_eq_getElem hp, Option.map_some]; unfold GCell.abs; rw [hcf]; rfl
+  rw [hg] at h1
+  simp only [Bool.and_eq_true, decide_eq_true_eq, List.all_eq_true, List.mem_range, Bool.not_eq_true',
+    List.length_map] at h1
+  obtain ⟨⟨⟨h2, h3⟩, h4⟩, h5⟩ := h1
+  refine ⟨h2, ?_, h3, ?_, ?_⟩
+  · unfold widthAt; rw [hg]; simp only []; omega
+  · intro k hk1 hk2
+    have := h4 (k - p - 1) (by omega)
+    rw [contAt_abs] at this
+    rwa [show p + 1 + (k - p - 1) = k by omega] at this
+  · rw [← contAt_abs]; exact h5
+
+theorem not_cont_zero {r : GRow} (hr : C20Grid.RowOK r) : r.contAt 0 = false := by
+  by_cases h0 : 0 < r.length
+  · cases hc : r.contAt 0 with
+    | false => rfl
+    | true =>
+      have hwf := hr.2
+      unfold rowWF at hwf
+      have h1 := List.all_eq_true.1 hwf 0 (List.mem_range.2 (by rw [List.length_map]; exact h0))
+      have hcf : (r[0]).cont = true := by rw [← contAt_get h0]; exact hc
+      have hg : (r.map GCell.abs)[0]? = some ⟨.cont, (r[0]).sty⟩ := by
+        rw [List.getElem?_map, List.getElem?_eq_getElem h0, Option.map_some]; unfold GCell.abs; rw [hcf]; rfl
+      rw [hg] at h1
+      simp at h1
+  · exact contAt_of_len (by omega)
+
+/-- a character whose head is `p` ends before the next boundary -/
+theorem nocut {r : GRow} (hr : C20Grid.RowOK r) {p q : Nat} (hp : r.contAt p = false) (hpq : p < q)
+    (hq : q ≤ r.length) (hcq : r.contAt q = false) : p + widthAt (r.map GCell.abs) p ≤ q := by
+  obtain ⟨_, h2, _, h4, _⟩ := wf_at hr (show p < r.length by omega) hp
+  rw [h2]
+  apply Nat.le_of_not_lt
+  intro hlt
+  have := h4 q hpq hlt
+  rw [hcq] at this; cases this
+
+/-- a character whose head is `p`, followed by continuation cells up to and including `q`, ends after `q` -/
+theorem cut {r : GRow} (hr : C20Grid.RowOK r) {p q : Nat} (hpl : p < r.length) (hp : r.contAt p = false)
+    (hc : ∀ k, p < k → k ≤ q → r.contAt k = true) : q < p + widthAt (r.map GCell.abs) p := by
+  obtain ⟨h1, h2, _, _, h5⟩ := wf_at hr hpl hp
+  rw [h2]
+  apply Nat.lt_of_not_le
+  intro hle
+  have := hc _ (by omega) hle
+  rw [h5] at this; cases this
+
+theorem headOf_ge {R : Row} {a : Nat} (ha : contAt R a = false) : ∀ j, a ≤ j → a ≤ headOf R j := by
+  intro j
+  induction j with
+  | zero => intro h; exact h
+  | succ j ih =>
+    intro h
+    by_cases hj : a = j + 1
+    · subst hj; rw [C02Span.headOf_of_not_cont ha]; exact Nat.le_refl _
+    · unfold headOf; split
+      · exact ih (by omega)
+      · exact h
+
+theorem headOf_lt {R : Row} {x : Nat} (hx : 0 < x) : ∀ j, x ≤ j → (∀ m, x ≤ m → m ≤ j → contAt R m = true) →
+    headOf R j < x := by
+  intro j
+  induction j with
+  | zero => intro h; omega
+  | succ j ih =>
+    intro h hc
+    unfold headOf
+    rw [hc (j + 1) h (Nat.le_refl _), if_pos rfl]
+    by_cases hj : x = j + 1
+    · have := C03.Lemmas.headOf_le R j; omega
+    · exact ih (by omega) (fun m h1 h2 => hc m h1 (by omega))
+
+theorem headOf_notcont {R : Row} (h0 : contAt R 0 = false) : ∀ j, contAt R (headOf R j) = false := by
+  intro j
+  induction j with
+  | zero => exact h0
+  | succ j ih =>
+    unfold headOf; split
+    · exact ih
+    · rename_i h; simpa using h
+
+/-- a cell between two character boundaries `a`, `b` inside the window is shown as it is -/
+theorem cut_inside {r : GRow} (hr : C20Grid.RowOK r) {x e a b j : Nat} (hxa : x ≤ a) (hbe : b ≤ e)
+    (hb : b ≤ r.length) (ha : r.contAt a = false) (hcb : r.contAt b = false) (haj : a ≤ j) (hjb : j < b) :
+    cutCell (r.map GCell.abs) x e j = (r[j]'(by omega)).abs := by
+  have hjl : j < r.length := by omega
+  have h1 := headOf_ge (R := r.map GCell.abs) (by rw [contAt_abs]; exact ha) j haj
+  have h2 := C03.Lemmas.headOf_le (r.map GCell.abs) j
+  have h3 := headOf_notcont (R := r.map GCell.abs) (by rw [contAt_abs]; exact not_cont_zero hr) j
+  rw [contAt_abs] at h3
+  have h4 := nocut hr h3 (show headOf (r.map GCell.abs) j < b by omega) hb hcb
+  rw [C11M.cutCell_inside _ x e j (by rw [List.length_map]; exact hjl) (by omega) (by omega), abs_get hjl]
+
+theorem abs_sty (c : GCell) : c.abs.sty = c.sty := by
+  unfold GCell.abs; split <;> rfl
+
+/-- the cells of a character that starts left of the window are blanks -/
+theorem cut_lead {r : GRow} (hr : C20Grid.RowOK r) {x e j : Nat} (hxj : x ≤ j) (hjl : j < r.length)
+    (hc : ∀ m, x ≤ m → m ≤ j → r.contAt m = true) :
+    cutCell (r.map GCell.abs) x e j = blank (r[j]).sty := by
+  have hx : 0 < x := by
+    apply Nat.pos_of_ne_zero
+    intro h0
+    have := hc x (Nat.le_refl _) hxj
+    rw [h0, not_cont_zero hr] at this; cases this
+  have h1 := headOf_lt (R := r.map GCell.abs) hx j hxj (fun m h1 h2 => by rw [contAt_abs]; exact hc m h1 h2)
+  rw [C11M.cutCell_cut _ x e j (by rw [List.length_map]; exact hjl) (Or.inl h1), abs_get hjl, abs_sty]
+
+/-- the cells of a character that continues beyond the right edge are blanks -/
+theorem cut_tail {r : GRow} (hr : C20Grid.RowOK r) {x e p j : Nat} (hpj : p ≤ j) (hje : j < e) (hel : e < r.length)
+    (hp : r.contAt p = false) (hc : ∀ m, p < m → m ≤ e → r.contAt m = true) :
+    cutCell (r.map GCell.abs) x e j = blank (r[j]'(by omega)).sty := by
+  have hjl : j < r.length := by omega
+  have h1 : headOf (r.map GCell.abs) j = p :=
+    C02Span.headOf_run (by rw [contAt_abs]; exact hp) j hpj (fun i h1 h2 => by rw [contAt_abs]; exact hc i h1 (by omega))
+  have h2 := cut hr (show p < r.length by omega) hp hc
+  rw [C11M.cutCell_cut _ x e j (by rw [List.length_map]; exact hjl) (Or.inr (by rw [h1]; exact h2)), abs_get hjl, abs_sty]
+
+/-- the mirror's cells `[a, a + n)` seen through the window `[x, e)` -/
+def cc (r : GRow) (x e a n : Nat) : List Cell :=
+  (List.range n).map fun k => cutCell (r.map GCell.abs) x e (a + k)
+
+theorem cc_add (r : GRow) (x e a m n : Nat) : cc r x e a (m + n) = cc r x e a m ++ cc r x e (a + m) n := by
+  unfold cc
+  rw [List.range_add, List.map_append, List.map_map]
+  congr 1
+  apply List.map_congr_left
+  intro k _
+  simp only [Function.comp]; rw [Nat.add_assoc]
+
+theorem cc_blank {r : GRow} {x e a n : Nat} {st : Style}
+    (h : ∀ k, k < n → cutCell (r.map GCell.abs) x e (a + k) = blank st) :
+    cc r x e a n = List.replicate n (blank st) := by
+  rw [List.eq_replicate_iff]
+  refine ⟨by simp [cc], ?_⟩
+  intro b hb
+  unfold cc at hb
+  obtain ⟨k, hk, rfl⟩ := List.mem_map.1 hb
+  exact h k (List.mem_range.1 hk)
+
+theorem cc_abs {r : GRow} {x e a n : Nat} (hl : a + n ≤ r.length)
+    (h : ∀ k (hk : k < n), cutCell (r.map GCell.abs) x e (a + k) = (r[a + k]'(by omega)).abs) :
+    cc r x e a n = ((r.drop a).take n).map GCell.abs := by
+  apply List.ext_getElem?
+  intro k
+  by_cases hk : k < n
+  · unfold cc
+    rw [List.getElem?_map, List.getElem?_range hk, Option.map_some, h k hk, List.getElem?_map,
+      List.getElem?_take, if_pos hk, List.getElem?_drop, List.getElem?_eq_getElem (by omega), Option.map_some]
+  · rw [List.getElem?_eq_none (by simp [cc]; omega), List.getElem?_eq_none (by simp; omega)]
+
+/-- (b): a stretch that consists of whole characters, in one style: the characters of its head
+    cells expand to its cells -/
+theorem whole_chars {r : GRow} (hr : C20Grid.RowOK r) (st : Style) : ∀ n a b, b - a ≤ n → a ≤ b → b ≤ r.length →
+    r.contAt a = false → r.contAt b = false → (∀ j (hj : j < r.length), a ≤ j → j < b → (r[j]).sty = st) →
+    ((((r.drop a).take (b - a)).filter (!·.cont)).map fun c => (c.text, c.width)).flatMap
+        (fun c => charCells c.1 c.2 st) = ((r.drop a).take (b - a)).map GCell.abs := by
+  intro n
+  induction n with
+  | zero => intro a b h _ _ _ _ _; rw [show b - a = 0 by omega]; rfl
+  | succ n ih =>
+    intro a b hn hab hb ha hcb hsty
+    by_cases hE : a = b
+    · rw [show b - a = 0 by omega]; rfl
+    have hal : a < r.length := by omega
+    obtain ⟨w1, _, w3, w4, w5⟩ := wf_at hr hal ha
+    generalize hw : (r[a]).width = w at w1 w3 w4 w5
+    obtain ⟨w', rfl⟩ : ∃ w', w = w' + 1 := ⟨w - 1, by omega⟩
+    have hbw : a + (w' + 1) ≤ b := by
+      apply Nat.le_of_not_lt; intro hlt
+      have := w4 b (by omega) hlt
+      rw [hcb] at this; cases this
+    have hcf : (r[a]).cont = false := by rw [← contAt_get hal]; exact ha
+    have e1 : (r.drop a).take (b - a) =
+        r[a] :: ((r.drop (a + 1)).take w' ++ (r.drop (a + (w' + 1))).take (b - (a + (w' + 1)))) := by
+      rw [show b - a = (w' + 1) + (b - (a + (w' + 1))) by omega, List.take_add, List.drop_drop,
+        List.drop_eq_getElem_cons hal, List.take_succ_cons, List.cons_append]
+    have hconts : ∀ d ∈ (r.drop (a + 1)).take w', d.cont = true ∧ d.sty = st := by
+      intro d hd
+      obtain ⟨k, hk⟩ := List.mem_iff_getElem?.1 hd
+      rw [List.getElem?_take] at hk
+      split at hk
+      · rename_i hkw
+        rw [List.getElem?_drop] at hk
+        have hlt : a + 1 + k < r.length := by omega
+        rw [List.getElem?_eq_getElem hlt, Option.some.injEq] at hk
+        subst hk
+        exact ⟨by rw [← contAt_get hlt]; exact w4 _ (by omega) (by omega), hsty _ hlt (by omega) (by omega)⟩
+      · cases hk
+    have hfil : ((r.drop (a + 1)).take w').filter (fun c => !c.cont) = [] := by
+      rw [List.filter_eq_nil_iff]
+      intro d hd; rw [(hconts d hd).1]; simp
+    have hrep : ((r.drop (a + 1)).take w').map GCell.abs = List.replicate w' ⟨.cont, st⟩ := by
+      rw [List.eq_replicate_iff]
+      refine ⟨by simp only [List.length_map, List.length_take, List.length_drop]; omega, ?_⟩
+      intro c hc
+      obtain ⟨d, hd, rfl⟩ := List.mem_map.1 hc
+      unfold GCell.abs; rw [(hconts d hd).1, (hconts d hd).2]; rfl
+    have ih' := ih (a + (w' + 1)) b (by omega) hbw hb w5 hcb (fun j hj h1 h2 => hsty j hj (by omega) h2)
+    rw [e1, List.filter_cons, hcf]
+    simp only [Bool.not_false, if_true, List.filter_append, hfil, List.nil_append, List.map_cons, List.flatMap_cons,
+      List.map_append, hrep]
+    rw [ih']
+    unfold charCells GCell.abs
+    rw [hcf, hw, hsty a hal (Nat.le_refl _) (by omega)]
+    simp only [Bool.false_eq_true, if_false, Nat.add_sub_cancel, List.cons_append]
+
+theorem mem_slice {r : GRow} {a n : Nat} {c : GCell} (h : c ∈ (r.drop a).take n) :
+    ∃ k, k < n ∧ ∃ (hj : a + k < r.length), r[a + k] = c := by
+  obtain ⟨k, hk⟩ := List.mem_iff_getElem?.1 h
+  rw [List.getElem?_take] at hk
+  split at hk
+  · rename_i hkn
+    rw [List.getElem?_drop] at hk
+    have hlt : a + k < r.length := by
+      apply Nat.lt_of_not_le; intro hle; rw [List.getElem?_eq_none hle] at hk; cases hk
+    rw [List.getElem?_eq_getElem hlt, Option.some.injEq] at hk
+    exact ⟨k, hkn, hlt, hk⟩
+  · cases hk
+
+theorem slice_get {r : GRow} {a n k : Nat} (hk : k < n) : ((r.drop a).take n)[k]? = r[a + k]? := by
+  rw [List.getElem?_take, if_pos hk, List.getElem?_drop]
+
+theorem cell_facts {r : GRow} (hok : r.all GCell.ok = true) (hch : r.all GCell.okCh = true) {c : GCell}
+    (hc : c ∈ r) (hcf : c.cont = false) : encodeRune c.ch = c.text ∧ c.text ≠ [] := by
+  have h1 := List.all_eq_true.1 hok c hc
+  have h2 := List.all_eq_true.1 hch c hc
+  unfold GCell.ok at h1
+  unfold GCell.okCh at h2
+  rw [hcf] at h1 h2
+  simp only [Bool.false_eq_true, if_false, Bool.and_eq_true, beq_iff_eq, Bool.not_eq_true',
+    List.isEmpty_eq_false_iff] at h1 h2
+  exact ⟨h2.1, h1.2⟩
+
+/-- the repeat-or-text run of a stretch body made of whole characters inside the window shows the
+    mirror's cells -/
+theorem main_cells {r : GRow} (hr : C20Grid.RowOK r) (hch : r.all GCell.okCh = true) {x e a m : Nat} {st : Style}
+    (hxa : x ≤ a) (hbe : a + m ≤ e) (hm : 0 < m) (hb : a + m ≤ r.length) (ha : r.contAt a = false)
+    (hcb : r.contAt (a + m) = false) (hsty : ∀ j (hj : j < r.length), a ≤ j → j < a + m → (r[j]).sty = st) :
+    (mainOf st ((r.drop a).take m)).cells = cc r x e a m := by
+  rw [cc_abs hb (fun k hk => cut_inside hr hxa hbe hb ha hcb (by omega) (by omega))]
+  have hbody : ∀ c ∈ (r.drop a).take m, c ∈ r ∧ c.sty = st := by
+    intro c hc
+    obtain ⟨k, hk, hj, rfl⟩ := mem_slice hc
+    exact ⟨List.getElem_mem hj, hsty _ hj (by omega) (by omega)⟩
+  unfold mainOf
+  simp only []
+  split
+  · rename_i hall
+    unfold GSpanC.cells
+    simp only [List.isEmpty_nil, if_true]
+    symm
+    rw [List.eq_replicate_iff]
+    refine ⟨by simp, ?_⟩
+    intro c' hb'
+    obtain ⟨c, hc, rfl⟩ := List.mem_map.1 hb'
+    have h1 := List.all_eq_true.1 hall c hc
+    simp only [Bool.and_eq_true, beq_iff_eq, Bool.not_eq_true'] at h1
+    obtain ⟨hmem, hs⟩ := hbody c hc
+    obtain ⟨f1, _⟩ := cell_facts hr.1 hch hmem h1.2
+    unfold GCell.abs
+    rw [h1.2, hs, ← f1, h1.1.1, h1.1.2]; rfl
+  · unfold GSpanC.cells
+    simp only []
+    have hte : ((((r.drop a).take m).filter (!·.cont)).flatMap (·.text)).isEmpty = false := by
+      have hal : a < r.length := by omega
+      have hcf : (r[a]).cont = false := by rw [← contAt_get hal]; exact ha
+      obtain ⟨m', rfl⟩ : ∃ m', m = m' + 1 := ⟨m - 1, by omega⟩
+      rw [List.drop_eq_getElem_cons hal, List.take_succ_cons, List.filter_cons, hcf]
+      simp only [Bool.not_false, if_true, List.flatMap_cons]
+      obtain ⟨_, f2⟩ := cell_facts hr.1 hch (List.getElem_mem hal) hcf
+      cases ht : (r[a]).text with
+      | nil => exact absurd ht f2
+      | cons p q => rfl
+    rw [hte]
+    simp only [Bool.false_eq_true, if_false]
+    have := whole_chars hr st m a (a + m) (by omega) (by omega) hb ha hcb hsty
+    rw [Nat.add_sub_cancel_left] at this
+    exact this
+
+theorem blanks_cells (st : Style) (n : Nat) : (blanks st n).cells = List.replicate n (blank st) := by
+  unfold blanks GSpanC.cells; rfl
+
+theorem gLeadCont_spec : ∀ s : GRow, (∀ k, k < gLeadCont s → ∃ c, s[k]? = some c ∧ c.cont = true) ∧
+    (∀ c, s[gLeadCont s]? = some c → c.cont = false)
+  | [] => ⟨by intro k hk; simp [gLeadCont] at hk, by intro c hc; simp at hc⟩
+  | d :: rest => by
+    obtain ⟨i1, i2⟩ := gLeadCont_spec rest
+    simp only [gLeadCont]
+    split
+    · rename_i hd
+      constructor
+      · intro k hk
+        cases k with
+        | zero => exact ⟨d, rfl, hd⟩
+        | succ k => simpa using i1 k (by omega)
+      · intro c hc; simp only [List.getElem?_cons_succ] at hc; exact i2 c hc
+    · rename_i hd
+      constructor
+      · intro k hk; omega
+      · intro c hc; simp only [List.getElem?_cons_zero, Option.some.injEq] at hc; subst hc; simpa using hd
+
+theorem gStyleRun_stop (st : Style) : ∀ s : GRow, ∀ c, s[gStyleRun st s]? = some c → c.sty ≠ st
+  | [] => by intro c hc; simp at hc
+  | d :: rest => by
+    intro c hc
+    simp only [gStyleRun] at hc
+    split at hc
+    · simp only [List.getElem?_cons_succ] at hc; exact gStyleRun_stop st rest c hc
+    · rename_i hd
+      simp only [List.getElem?_cons_zero, Option.some.injEq] at hc; subst hc; exact hd
+
+/-- `gStretch` after the leading blanks, for cells `[a, a + m)` that start at a character boundary:
+    the body (whole characters) as it is, the cells of a character cut by the right edge as blanks -/
+theorem core_cells {r : GRow} (hr : C20Grid.RowOK r) (hch : r.all GCell.okCh = true) {x e a m : Nat} {st : Style}
+    (hxa : x ≤ a) (hm : 0 < m) (hse : a + m ≤ e) (hel : e ≤ r.length)
+    (hsty : ∀ j (hj : j < r.length), a ≤ j → j < a + m → (r[j]).sty = st)
+    (ha : r.contAt a = false) (c : Bool)
+    (hT : c = true → a + m = e ∧ e < r.length ∧ r.contAt e = true)
+    (hF : c = false → r.contAt (a + m) = false) (pre : List GSpanC) :
+    (core st pre ((r.drop a).take m) (cutTailOf c ((r.drop a).take m))).flatMap GSpanC.cells =
+      pre.flatMap GSpanC.cells ++ cc r x e a m := by
+  have hlen : ((r.drop a).take m).length = m := by simp only [List.length_take, List.length_drop]; omega
+  cases c with
+  | false =>
+    have hcb := hF rfl
+    unfold core cutTailOf
+    simp only [Bool.false_eq_true, if_false, Nat.sub_zero, List.take_length, Nat.lt_irrefl, gt_iff_lt]
+    have hne : ((r.drop a).take m).isEmpty = false := by
+      cases hs : (r.drop a).take m with
+      | nil => rw [hs] at hlen; simp at hlen; omega
+      | cons _ _ => rfl
+    rw [hne]
+    simp only [Bool.false_eq_true, if_false, List.append_nil, List.flatMap_append, List.flatMap_cons, List.flatMap_nil]
+    rw [main_cells hr hch hxa hse hm (by omega) ha hcb hsty]
+  | true =>
+    obtain ⟨h1, h2, h3⟩ := hT rfl
+    obtain ⟨s1, s2⟩ := gLeadCont_spec ((r.drop a).take m).reverse
+    have hle := gLeadCont_le ((r.drop a).take m).reverse
+    rw [List.length_reverse, hlen] at hle
+    have hrev : ∀ k, k < m → ((r.drop a).take m).reverse[k]? = r[a + (m - 1 - k)]? := by
+      intro k hk
+      rw [List.getElem?_reverse (by rw [hlen]; exact hk), hlen, slice_get (by omega)]
+    have htdef : gTrailCont ((r.drop a).take m) = gLeadCont ((r.drop a).take m).reverse := rfl
+    generalize ht : gLeadCont ((r.drop a).take m).reverse = t at s1 s2 hle htdef
+    have hal : a < r.length := by omega
+    have htlt : t < m := by
+      apply Nat.lt_of_not_le; intro hge
+      obtain ⟨c, hc1, hc2⟩ := s1 (m - 1) (by omega)
+      rw [hrev _ (by omega), show a + (m - 1 - (m - 1)) = a by omega, List.getElem?_eq_getElem hal,
+        Option.some.injEq] at hc1
+      rw [contAt_get hal, hc1, hc2] at ha; cases ha
+    have hp : r.contAt (a + (m - (t + 1))) = false := by
+      have hpl : a + (m - (t + 1)) < r.length := by omega
+      have := s2 (r[a + (m - (t + 1))]) (by
+        rw [hrev _ htlt, show a + (m - 1 - t) = a + (m - (t + 1)) by omega, List.getElem?_eq_getElem hpl])
+      rw [contAt_get hpl]; exact this
+    have hcont : ∀ k, a + (m - (t + 1)) < k → k ≤ e → r.contAt k = true := by
+      intro k hk1 hk2
+      by_cases hke : k = e
+      · rw [hke]; exact h3
+      · obtain ⟨c, hc1, hc2⟩ := s1 (a + m - 1 - k) (by omega)
+        have hkl : k < r.length := by omega
+        rw [hrev _ (by omega), show a + (m - 1 - (a + m - 1 - k)) = k by omega, List.getElem?_eq_getElem hkl,
+          Option.some.injEq] at hc1
+        rw [contAt_get hkl, hc1, hc2]
+    have hct : cutTailOf true ((r.drop a).take m) = t + 1 := by
+      unfold cutTailOf
+      rw [if_pos rfl, htdef, hlen]; omega
+    have hblank : ∀ k, k < t + 1 → cutCell (r.map GCell.abs) x e (a + (m - (t + 1)) + k) = blank st := by
+      intro k hk
+      rw [cut_tail hr (p := a + (m - (t + 1))) (by omega) (by omega) h2 hp hcont,
+        hsty _ (by omega) (by omega) (by omega)]
+    rw [hct]
+    unfold core
+    rw [hlen, List.take_take, Nat.min_eq_left (by omega : m - (t + 1) ≤ m)]
+    by_cases hz : m - (t + 1) = 0
+    · rw [hz] at hblank ⊢
+      simp only [List.take_zero, List.isEmpty_nil, if_true, List.flatMap_append, List.flatMap_cons, List.flatMap_nil,
+        List.append_nil]
+      rw [blanks_cells, show m = t + 1 by omega]
+      rw [cc_blank (st := st) (fun k hk => by have := hblank k hk; rwa [Nat.add_zero] at this)]
+    · have hne : ((r.drop a).take (m - (t + 1))).isEmpty = false := by
+        cases hs : (r.drop a).take (m - (t + 1)) with
+        | nil =>
+          have := congrArg List.length hs
+          simp only [List.length_take, List.length_drop, List.length_nil] at this; omega
+        | cons _ _ => rfl
+      rw [hne]
+      simp only [Bool.false_eq_true, if_false, gt_iff_lt, Nat.zero_lt_succ, if_true, List.flatMap_append,
+        List.flatMap_cons, List.flatMap_nil, List.append_nil]
+      rw [main_cells (e := e) hr hch hxa (by omega) (by omega) (by omega) ha hp (fun j hj h1 h2 => hsty j hj h1 (by omega)),
+        blanks_cells]
+      have hsplit : cc r x e a m = cc r x e a (m - (t + 1)) ++ cc r x e (a + (m - (t + 1))) (t + 1) := by
+        rw [← cc_add]; congr 1; omega
+      rw [hsplit, cc_blank (st := st) hblank, List.append_assoc]
+
+/-- one stretch of equal style `[i, i + n)` of the loop: its runs show the mirror's cells. The
+    stretch starts at the left edge or at a character boundary, and ends at a character boundary
+    unless `c` (it ends at the right edge and the next cell is a continuation cell) -/
+theorem stretch_cells {r : GRow} (hr : C20Grid.RowOK r) (hch : r.all GCell.okCh = true) {x e i n : Nat} {st : Style}
+    (hxi : x ≤ i) (hn : 0 < n) (hse : i + n ≤ e) (hel : e ≤ r.length)
+    (hsty : ∀ j (hj : j < r.length), i ≤ j → j < i + n → (r[j]).sty = st)
+    (hstart : i ≠ x → r.contAt i = false) (c : Bool)
+    (hT : c = true → i + n = e ∧ e < r.length ∧ r.contAt e = true)
+    (hF : c = false → r.contAt (i + n) = false) :
+    (gStretch st ((r.drop i).take n) (decide (i = x)) c).flatMap GSpanC.cells = cc r x e i n := by
+  have hlen : ((r.drop i).take n).length = n := by simp only [List.length_take, List.length_drop]; omega
+  have hil : i < r.length := by omega
+  have hhead : ((r.drop i).take n).head? = some r[i] := by
+    rw [List.head?_eq_getElem?, slice_get hn, Nat.add_zero, List.getElem?_eq_getElem hil]
+  by_cases hc : decide (i = x) = true ∧ ((r.drop i).take n).head?.map (·.cont) = some true
+  · rw [gStretch_lead st _ _ c hc]
+    have hix : i = x := of_decide_eq_true hc.1
+    obtain ⟨s1, s2⟩ := gLeadCont_spec ((r.drop i).take n)
+    have hle := gLeadCont_le ((r.drop i).take n)
+    rw [hlen] at hle
+    have hp := gLeadCont_pos hc.2
+    generalize hpad : gLeadCont ((r.drop i).take n) = pad at s1 s2 hle hp
+    have hconts : ∀ k, i ≤ k → k < i + pad → r.contAt k = true := by
+      intro k h1 h2
+      obtain ⟨d, hd1, hd2⟩ := s1 (k - i) (by omega)
+      have hkl : k < r.length := by omega
+      rw [slice_get (by omega), show i + (k - i) = k by omega, List.getElem?_eq_getElem hkl,
+        Option.some.injEq] at hd1
+      rw [contAt_get hkl, hd1, hd2]
+    have hblank : ∀ k, k < pad → cutCell (r.map GCell.abs) x e (i + k) = blank st := by
+      intro k hk
+      rw [cut_lead hr (by omega) (by omega) (fun m h1 h2 => hconts m (by omega) (by omega)),
+        hsty _ (by omega) (by omega) (by omega)]
+    rw [List.drop_take, List.drop_drop]
+    by_cases he : ((r.drop (i + pad)).take (n - pad)).isEmpty = true
+    · rw [if_pos ⟨he, hp⟩]
+      have h2 := congrArg List.length (List.isEmpty_iff.1 he)
+      simp only [List.length_take, List.length_drop, List.length_nil] at h2
+      have hpn : n = pad := by omega
+      simp only [List.flatMap_cons, List.flatMap_nil, List.append_nil]
+      rw [blanks_cells, hpn, cc_blank hblank]
+    · rw [if_neg (fun h => he h.1)]
+      have hlt : pad < n := by
+        apply Nat.lt_of_not_le; intro hge
+        apply he; rw [show n - pad = 0 by omega]; rfl
+      have ha : r.contAt (i + pad) = false := by
+        have hl : i + pad < r.length := by omega
+        have := s2 r[i + pad] (by rw [slice_get hlt, List.getElem?_eq_getElem hl])
+        rw [contAt_get hl]; exact this
+      rw [core_cells (x := x) (e := e) hr hch (by omega) (by omega) (by omega) hel
+        (fun j hj h1 h2 => hsty j hj (by omega) (by omega)) ha c
+        (fun h => by obtain ⟨a1, a2, a3⟩ := hT h; exact ⟨by omega, a2, a3⟩)
+        (fun h => by have := hF h; rwa [show i + pad + (n - pad) = i + n by omega])]
+      simp only [List.flatMap_cons, List.flatMap_nil, List.append_nil]
+      rw [blanks_cells, ← cc_blank hblank, ← cc_add]; congr 1; omega
+  · rw [gStretch_nolead st _ _ c hc]
+    have ha : r.contAt i = false := by
+      by_cases hix : i = x
+      · rw [contAt_get hil]
+        cases hcf : (r[i]).cont with
+        | false => rfl
+        | true => exact absurd ⟨decide_eq_true hix, by rw [hhead, Option.map_some, hcf]⟩ hc
+      · exact hstart hix
+    rw [core_cells (x := x) (e := e) hr hch hxi hn hse hel hsty ha c hT hF]
+    rfl
+
+/-- (c) and the loop: with `ContSty` every stretch boundary inside the window is a character
+    boundary, so the loop over the stretches shows the mirror's cells `[i, e)` -/
+theorem aux_cells {r : GRow} (hr : C20Grid.RowOK r) (hch : r.all GCell.okCh = true) (hcs : ContSty r)
+    (x e : Nat) (he : e ≤ r.length) :
+    ∀ (fuel i : Nat), x ≤ i → i ≤ e → e - i < fuel → (i ≠ x → i < e → r.contAt i = false) →
+    (gStyledAux r x e fuel i).flatMap GSpanC.cells = cc r x e i (e - i) := by
+  intro fuel
+  induction fuel with
+  | zero => intro i _ _ h; omega
+  | succ fuel ih =>
+    intro i hxi hi hf hinv
+    unfold gStyledAux
+    by_cases hge : i ≥ e
+    · rw [if_pos hge, show e - i = 0 by omega]; rfl
+    · rw [if_neg hge]
+      simp only []
+      have hlen : ((r.drop i).take (e - i)).length = e - i := by
+        simp only [List.length_take, List.length_drop]; omega
+      have hget : ∀ k, k < e - i → ((r.drop i).take (e - i))[k]? = r[i + k]? := fun k hk => slice_get hk
+      have htake : ∀ n, n ≤ e - i → ((r.drop i).take (e - i)).take n = (r.drop i).take n := by
+        intro n hn; rw [List.take_take, Nat.min_eq_left hn]
+      generalize hrest : (r.drop i).take (e - i) = rest at hlen hget htake
+      cases rest with
+      | nil => simp only [List.length_nil] at hlen; omega
+      | cons c tl =>
+        simp only []
+        have hn1 := gStyleRun_pos c tl
+        have hn2 := gStyleRun_le c.sty (c :: tl)
+        have hsty0 := gStyleRun_sty c.sty (c :: tl)
+        have hstop0 := gStyleRun_stop c.sty (c :: tl)
+        generalize hn : gStyleRun c.sty (c :: tl) = n at hn1 hn2 hsty0 hstop0
+        rw [hlen] at hn2
+        rw [htake n hn2] at hsty0 ⊢
+        have hsty : ∀ j (hj : j < r.length), i ≤ j → j < i + n → (r[j]).sty = c.sty := by
+          intro j hj h1 h2
+          apply hsty0
+          apply List.mem_of_getElem? (i := j - i)
+          rw [slice_get (by omega), show i + (j - i) = j by omega, List.getElem?_eq_getElem hj]
+        have hbnd : i + n < e → r.contAt (i + n) = false := by
+          intro hlt
+          have hl : i + n < r.length := by omega
+          have h1 := hstop0 r[i + n] (by rw [hget n (by omega), List.getElem?_eq_getElem hl])
+          rw [contAt_get hl]
+          cases hcf : (r[i + n]).cont with
+          | false => rfl
+          | true =>
+            obtain ⟨c0, g1, g2⟩ := hcs (i + n - 1) r[i + n]
+              (by rw [List.getElem?_eq_getElem (by omega)]; congr 2; omega) hcf
+            have hl0 : i + n - 1 < r.length := by omega
+            rw [List.getElem?_eq_getElem hl0, Option.some.injEq] at g1
+            have := hsty (i + n - 1) hl0 (by omega) (by omega)
+            rw [g1, g2] at this
+            exact absurd this h1
+        have hT : (decide (i + n = e) && decide (e < r.length) && r.contAt e) = true →
+            i + n = e ∧ e < r.length ∧ r.contAt e = true := by
+          intro h; simp only [Bool.and_eq_true, decide_eq_true_eq] at h; exact ⟨h.1.1, h.1.2, h.2⟩
+        have hF : (decide (i + n = e) && decide (e < r.length) && r.contAt e) = false →
+            r.contAt (i + n) = false := by
+          intro h
+          by_cases hs : i + n = e
+          · by_cases hl : e < r.length
+            · rw [hs]; simpa [hs, hl] using h
+            · exact contAt_of_len (by omega)
+          · exact hbnd (by omega)
+        rw [List.flatMap_append, ih (i + n) (by omega) (by omega) (by omega) (fun _ h => hbnd h),
+          stretch_cells (x := x) (e := e) hr hch hxi hn1 (by omega) he hsty (fun h => hinv h (by omega)) _ hT hF,
+          ← cc_add]
+        congr 1; omega
+
+/-- **1.** For a row of consistent cells (`C20Grid.RowOK`: `GCell.ok` and `rowWF` of the abstraction;
+    `okCh`: the rune array agrees with the text array) whose continuation cells carry the style of
+    the cell to their left (`ContSty`, needed: `contSty_needed`), with wide characters of any width
+    and any number of styles: the runs `StyledLine(x, w, y)` returns (blank runs for the cells of a
+    character cut by either edge, repeat runs, text runs), expanded to cells, are the mirror model's
+    read `subCells` of `[x, x + w)`, and the reported width is `w`; also the to-the-end form. -/
+theorem grid_styledLine_subCells (r : GRow) (hr : C20Grid.RowOK r) (hch : r.all GCell.okCh = true)
+    (hcs : ContSty r) {x : Nat} (hx : x ≤ r.length) :
+    (∀ w, x + w ≤ r.length →
+      ((r.styledLine x (some w)).1).flatMap GSpanC.cells = subCells (r.map GCell.abs) x (x + w) ∧
+      (r.styledLine x (some w)).2 = w) ∧
+    ((r.styledLine x none).1).flatMap GSpanC.cells = subCells (r.map GCell.abs) x r.length ∧
+    (r.styledLine x none).2 = r.length - x := by
+  have key : ∀ w, x + w ≤ r.length →
+      (gStyledAux r x (x + w) (w + 1) x).flatMap GSpanC.cells = subCells (r.map GCell.abs) x (x + w) := by
+    intro w hw
+    rw [aux_cells hr hch hcs x (x + w) hw (w + 1) x (Nat.le_refl _) (by omega) (by omega) (fun h => absurd rfl h)]
+    rfl
+  refine ⟨?_, ?_, rfl⟩
+  · intro w hw
+    unfold GRow.styledLine
+    simp only []
+    rw [if_neg (by omega)]
+    exact ⟨key w hw, rfl⟩
+  · have h := key (r.length - x) (by omega)
+    have e : x + (r.length - x) = r.length := by omega
+    show (gStyledAux r x (x + (r.length - x)) (r.length - x + 1) x).flatMap GSpanC.cells = _
+    rw [h, e]
+
+/-- **3.** For every byte stream (sizes within the CSI parameter range, `cw 32 ≤ 1`, `cw 0xFFFD ≤ 1`):
+    `StyledLine(x, n, y)` of the array-level terminal's ACTIVE screen (the grid buffer as the code
+    stores it, after the stream), expanded to cells, is the mirror model's read `subCells` of row `y`
+    of the model terminal's active screen after the same stream, for every window `[x, x + n)` inside
+    the row, with the reported width `n`; also the to-the-end form. -/
+theorem stream_grid_styledLine (cw : Nat → Nat) (hsp : cw 32 ≤ 1) (hrep : cw 0xFFFD ≤ 1) {w h : Nat}
+    (hw : 1 ≤ w) (hh : 1 ≤ h) (hW : w ≤ paramMax) (hH : h ≤ paramMax) (bs : Bytes) {y : Nat} (hy : y < h)
+    {x : Nat} (hx : x ≤ w) :
+    let S := C20Grid.gStateAfter cw (GTerm.init w h) (C10.toksOf bs)
+    let T := (run cw (Term.init .blank w h) bs).1
+    (∀ n, x + n ≤ w →
+      (((S.scr.row y).styledLine x (some n)).1).flatMap GSpanC.cells = subCells (T.scr.row y) x (x + n) ∧
+      ((S.scr.row y).styledLine x (some n)).2 = n) ∧
+    (((S.scr.row y).styledLine x none).1).flatMap GSpanC.cells = subCells (T.scr.row y) x w ∧
+    ((S.scr.row y).styledLine x none).2 = w - x := by
+  intro S T
+  have hcs : ContSty (S.scr.row y) := stream_contSty cw hsp hrep hw hh hW hH bs hy
+  obtain ⟨_, _, _, _, _, _, hon, hrows⟩ := C20Grid.stream_rows cw hw hh bs
+  obtain ⟨m1, m2, a1, a2⟩ := hrows y hy
+  have hok : C20GridAnsi.TermOK S := C20GridAnsi.stream_chOK cw w h bs
+  have hm := C20GridAnsi.cellsOK_iff.2 (C20GridAnsi.row_chOK hok.1 y)
+  have ha := C20GridAnsi.cellsOK_iff.2 (C20GridAnsi.row_chOK hok.2 y)
+  have key : C20Grid.RowInv w (S.scr.row y) ∧ T.scr.row y = (S.scr.row y).map GCell.abs ∧
+      (S.scr.row y).all GCell.okCh = true := by
+    change S.onAlt = T.onAlt at hon
+    unfold GTerm.scr Term.scr
+    rw [← hon]
+    cases hS : S.onAlt with
+    | false => exact ⟨m1, m2, hm⟩
+    | true => exact ⟨a1, a2, ha⟩
+  obtain ⟨k1, k2, k3⟩ := key
+  have := grid_styledLine_subCells (S.scr.row y) k1.ok k3 hcs (x := x) (by rw [k1.1]; exact hx)
+  rw [k2]
+  rw [k1.1] at this
+  exact this
+
 section nonvacuity
 open TM.C11.Examples (boldRedOn200 fancy)
 
@@ -584,6 +1210,30 @@ example : ¬ ContSty badRow := by
   subst this
   revert h1; decide
 
+/-- a Boolean check of `ContSty` -/
+def contStyB (r : GRow) : Bool :=
+  (List.range r.length).all fun i =>
+    match r[i + 1]? with
+    | some c => !c.cont || (match r[i]? with | some c0 => decide (c0.sty = c.sty) | none => false)
+    | none => true
+
+theorem contSty_of_check {r : GRow} (h : contStyB r = true) : ContSty r := by
+  intro i c hc hcont
+  have hi : i + 1 < r.length := by
+    apply Nat.lt_of_not_le; intro hle; rw [List.getElem?_eq_none hle] at hc; cases hc
+  have := List.all_eq_true.1 h i (List.mem_range.2 (by omega))
+  rw [hc] at this
+  simp only [hcont, Bool.not_true, Bool.false_or] at this
+  rw [List.getElem?_eq_getElem (by omega)] at this ⊢
+  exact ⟨_, rfl, of_decide_eq_true this⟩
+
+/-- the hypotheses of the general theorem hold on `exRow` (wide characters, two styles); the window
+    `[1, 8)` cuts a wide character on each side -/
+example : ((exRow.styledLine 1 (some 7)).1).flatMap GSpanC.cells = subCells (exRow.map GCell.abs) 1 8 :=
+  ((grid_styledLine_subCells exRow ⟨by decide, by decide⟩ (by decide) (contSty_of_check (by decide))
+    (x := 1) (by decide)).1 7 (by decide)).1
+example : ¬ contStyB badRow = true := by decide
+
 end nonvacuity
 
 end TM.C20GridStyled
@@ -593,3 +1243,5 @@ end TM.C20GridStyled
 #print axioms TM.C20GridStyled.contSty_needed
 #print axioms TM.C20GridStyled.grid_styledLine_subCells_partial
 #print axioms TM.C20GridStyled.stream_contSty
+#print axioms TM.C20GridStyled.grid_styledLine_subCells
+#print axioms TM.C20GridStyled.stream_grid_styledLine
